@@ -118,6 +118,11 @@ def one(ctx, i, tmpdir):
         vals = tuple(sorted("{}_zq{}".format(c, (i // 7) % 5) for c in "bac"))
         in_src = "from typing import Optional, List\nzq_vals = tuple(sorted({!r}))\n".format(tuple(reversed(vals))) + in_src
         eval_values["zq_vals"] = vals
+        if (i // 7) % 3 == 1:
+            # evaluated values that repeat, and values that are equal but of different types (0 / False, 1 / True)
+            vals = (0, 1, 2, False, True, 2)
+            in_src = "from typing import Optional, List\nzq_vals = (0, 1, 2, False, True, 2)\n" + min_["src"]
+            eval_values["zq_vals"] = vals
         in_tree = ast.parse(in_src)
     n_pairs = 1 + (i % 3 if not evalmode else 0)
     if i % 6 == 4 and not evalmode:
